@@ -7,6 +7,7 @@ import AdfObdd.Props.C02
 import AdfObdd.Props.C03
 import AdfObdd.Props.C04
 import AdfObdd.Props.C05
+import AdfObdd.MemoCheckProofs
 /-! # C11 — cache transparency, handle stability, determinism across call histories
 
 Every public call only *extends* the node table and adds sound memo entries (`WF` is preserved,
@@ -121,3 +122,78 @@ example : WF Store.init ∧ [1, 0].length = 2 ∧ (∀ t ∈ [1, 0], t < Store.i
 example : WF Store.init := WF_init
 
 end C11
+
+/-! ## the audit of the implementation's real memo tables is a verified checker
+
+At the end of every diagram-family case (and after the ADF computations and the persistence round
+trips) the harness dumps the PRIVATE tables of the Rust object — unique table, if-then-else memo,
+restrict memo, count cache, dependency lists — next to its node table. `wfCheck` (proved:
+`wfCheck_sound`) establishes the structural invariant of the dumped node table;
+`MemoCheck.memoCheckF` audits the other tables against the Boolean functions of that node table.
+`memo_audit_sound` says what a positive verdict means: every memo entry, whenever and in whichever
+order it was written, denotes what it is a memo of — which is why a warm cache cannot change an
+answer. (`MemoCheck.lean`, `MemoCheckProofs.lean`.) -/
+namespace C11
+
+/-- **soundness of the memo audit**: on a dumped node table that passes `wfCheck`, a positive
+verdict of `memoCheckF` on the dumped private tables means `MemoSound` for every store `s` with
+that node table:
+* every unique-table row `(v, lo, hi, t)` is the node at the inner handle `t`, and every inner
+  node has its row;
+* every if-then-else entry `(i, t, e, r)` has its handles in range and
+  `∀ σ, eval s r σ = if eval s i σ then eval s t σ else eval s e σ`;
+* every restrict entry `(t, v, b, r)` has `∀ σ, eval s r σ = eval s t (upd σ v b)`;
+* every count entry holds `pathsF`, the depth of `countF` and — unless the feature set is the
+  documented exception — the (counter-)model counts of `countF`;
+* there is one dependency list per node, equal as a set to `depsF`. -/
+theorem memo_audit_sound (nv : Nat) (exc : Bool) (s : Store) (r : MemoCheck.Rows)
+    (hwf : wfCheck s.nodes = true) (hc : MemoCheck.memoCheckF nv exc s.nodes r = true) :
+    MemoCheck.MemoSound nv exc s r :=
+  MemoCheck.memoCheckF_sound nv exc s r (wfCheck_sound s.nodes hwf) hc
+
+/-- the same from the structural invariant (e.g. for the node table of a model store, `WF.table`) -/
+theorem memo_audit_sound_of_tableWF (nv : Nat) (exc : Bool) (s : Store) (r : MemoCheck.Rows)
+    (h : TableWF s.nodes) (hc : MemoCheck.memoCheckF nv exc s.nodes r = true) :
+    MemoCheck.MemoSound nv exc s r :=
+  MemoCheck.memoCheckF_sound nv exc s r h hc
+
+/-- the checker's bottom-up table of a node represents the node's function -/
+theorem memo_audit_tables_represent (s : Store) (h : TableWF s.nodes) (nv i : Nat) (hi : i < s.nodes.size) :
+    TT.Rep nv ((MemoCheck.ttOf nv s.nodes).getD i 0) (eval s i) :=
+  MemoCheck.tt_of_node_rep s h nv i hi
+
+/-- the node table of x0, x1 and x0 ∧ x1 (handles 2, 3, 4) over two variables … -/
+def auditTable : Array Node := #[⟨VBOT, 0, 0⟩, ⟨VTOP, 1, 1⟩, ⟨0, 0, 1⟩, ⟨1, 0, 1⟩, ⟨0, 0, 3⟩]
+
+/-- … and private tables as the implementation would hold them after computing the conjunction,
+two restrictions and the counts of the conjunction (3 counter-models, 1 model, 2 paths to ⊥,
+1 path to ⊤, depth 2) -/
+def auditRows : MemoCheck.Rows :=
+  { uniq := [(0, 0, 3, 4), (0, 0, 1, 2), (1, 0, 1, 3)]
+    ite := [(2, 3, 0, 4)]
+    res := [(4, 0, true, 3), (4, 0, false, 0), (4, 1, false, 0)]
+    cnt := [(4, 3, 1, 2, 1, 2), (3, 1, 1, 1, 1, 1)]
+    deps := some [[], [], [0], [1], [0, 1]] }
+
+/-- non-vacuity: both checks pass on these tables (by evaluation), so the theorem applies … -/
+example : wfCheck auditTable = true ∧ MemoCheck.memoCheckF 2 false auditTable auditRows = true := by
+  constructor <;> decide
+
+example : MemoCheck.MemoSound 2 false ⟨auditTable, ∅, ∅, ∅⟩ auditRows :=
+  memo_audit_sound 2 false ⟨auditTable, ∅, ∅, ∅⟩ auditRows (by decide) (by decide)
+
+/-- … and the audit is not trivially positive: a wrong if-then-else entry (x0 ∧ x1 recorded as
+x1), a wrong cofactor, a wrong model count, a missing unique-table row and a wrong dependency
+list are each rejected -/
+example :
+    MemoCheck.memoCheckF 2 false auditTable { auditRows with ite := [(2, 3, 0, 3)] } = false ∧
+    MemoCheck.memoCheckF 2 false auditTable { auditRows with res := [(4, 0, true, 4)] } = false ∧
+    MemoCheck.memoCheckF 2 false auditTable { auditRows with cnt := [(4, 2, 2, 2, 1, 2)] } = false ∧
+    MemoCheck.memoCheckF 2 true auditTable { auditRows with cnt := [(4, 2, 2, 2, 1, 2)] } = true ∧
+    MemoCheck.memoCheckF 2 false auditTable { auditRows with uniq := [(0, 0, 3, 4), (0, 0, 1, 2), (0, 0, 1, 2)] } = false ∧
+    MemoCheck.memoCheckF 2 false auditTable { auditRows with deps := some [[], [], [0], [1], [1]] } = false := by
+  refine ⟨?_, ?_, ?_, ?_, ?_, ?_⟩ <;> decide
+
+end C11
+
+#print axioms C11.memo_audit_sound
